@@ -91,17 +91,19 @@ def _impersonate_options(
         impersonated_option: Optional[Tuple[str, Any]] = None
 
         if option == TCPOption.MSS:
-            # MSS might have a maximum size because of WindowType.MSS
-            max_mss = (2**16) // (
-                signature.window.size if signature.window.type == WindowType.MSS else 1
-            )
+            if signature.window.type == WindowType.MSS:
+                # Window is MSS * N: p0f needs MSS >= 100 to find the multiplier,
+                # and the product has to fit the 16-bit window field.
+                min_mss, max_mss = 100, (2**16 - 1) // signature.window.size
+            else:
+                min_mss, max_mss = 0, 2**16 - 1
 
             if signature.options.mss == WILDCARD:
-                if mss_hint and 0 <= mss_hint <= max_mss:
+                if mss_hint is not None and min_mss <= mss_hint <= max_mss:
                     impersonated_option = ("MSS", mss_hint)
                 else:
                     # invalid hint, generate new value
-                    impersonated_option = ("MSS", random.randrange(100, max_mss))
+                    impersonated_option = ("MSS", random.randint(100, max_mss))
             else:
                 impersonated_option = ("MSS", signature.options.mss)
 
